@@ -245,6 +245,42 @@ fn enc(w: &[&str]) -> String {
     }
 }
 
+/// `tencc <type> <args>`: the built-in `Encode` / `CborLen` impls (not the Encoder methods) of types that exist in every configuration,
+/// into a fixed buffer: `<hex> len=<minicbor::len>`.  Floats are given as bit patterns.
+fn tencc(w: &[&str]) -> String {
+    if w.len() != 2 { return "bad-op".into() }
+    fn go<T: minicbor::Encode<()> + minicbor::CborLen<()>>(v: T) -> String {
+        let n = minicbor::len(&v);
+        let mut buf = [0u8; 96];
+        let room = {
+            let mut e = Encoder::new(&mut buf[..]);
+            match e.encode(&v) { Ok(_) => e.into_writer().len(), Err(x) => return format!("err {} len={}", if x.is_write() { "write" } else { "other" }, n) }
+        };
+        format!("{} len={}", hex(&buf[.. 96 - room]), n)
+    }
+    let a = w[1];
+    let b32 = |s: &str| u32::from_str_radix(s, 16).ok().map(f32::from_bits);
+    let b64 = |s: &str| u64::from_str_radix(s, 16).ok().map(f64::from_bits);
+    match w[0] {
+        "f32" => match b32(a) { Some(x) => go(x), None => "bad-op".into() },
+        "f64" => match b64(a) { Some(x) => go(x), None => "bad-op".into() },
+        "opt_f32" => if a == "N" { go(None::<f32>) } else { match b32(a) { Some(x) => go(Some(x)), None => "bad-op".into() } },
+        "tup_f32_f64" => match a.split_once(',') { Some((x, y)) => match (b32(x), b64(y)) { (Some(x), Some(y)) => go((x, y)), _ => "bad-op".into() }, None => "bad-op".into() },
+        "arr2_f64" => match a.split_once(',') { Some((x, y)) => match (b64(x), b64(y)) { (Some(x), Some(y)) => go([x, y]), _ => "bad-op".into() }, None => "bad-op".into() },
+        "tagged_f32" => match b32(a) { Some(x) => go(minicbor::data::Tagged::<5, f32>::new(x)), None => "bad-op".into() },
+        "range_f64" => match a.split_once(',') { Some((x, y)) => match (b64(x), b64(y)) { (Some(x), Some(y)) => go(x .. y), _ => "bad-op".into() }, None => "bad-op".into() },
+        "u64" => match a.parse::<u64>() { Ok(x) => go(x), Err(_) => "bad-op".into() },
+        "i64" => match a.parse::<i64>() { Ok(x) => go(x), Err(_) => "bad-op".into() },
+        "opt_u8" => if a == "N" { go(None::<u8>) } else { match a.parse::<u8>() { Ok(x) => go(Some(x)), Err(_) => "bad-op".into() } },
+        "char" => match a.parse::<u32>().ok().and_then(char::from_u32) { Some(c) => go(c), None => "bad-op".into() },
+        "bool" => go(a == "1"),
+        "unit" => go(()),
+        "str" => match unhex(a).and_then(|b| String::from_utf8(b).ok()) { Some(s) => go(&s[..]), None => "bad-op".into() },
+        "duration" => match a.split_once(',') { Some((x, y)) => match (x.parse::<u64>(), y.parse::<u32>()) { (Ok(x), Ok(y)) if y < 1_000_000_000 => go(core::time::Duration::new(x, y)), _ => "bad-op".into() }, None => "bad-op".into() },
+        _ => "bad-op".into()
+    }
+}
+
 fn sclass(msg: &str) -> &'static str {
     if msg.starts_with("end of input bytes") { "eoi" }
     else if msg.starts_with("unexpected type") { "type" }
@@ -396,6 +432,7 @@ fn dispatch(w: &[&str]) -> String {
     match w[0] {
         "tovecs" => tovecs(&w[1..]),
         "sde" => sde(&w[1..]),
+        "tencc" => tencc(&w[1..]),
         "sser" => sser(&w[1..]),
         "enc" => enc(&w[1..]),
         "encseq" => encseq(&w[1..]),
